@@ -14,7 +14,9 @@ def mech(tier, seed):
     # Mech => Prop for the whole WHERE path: Lexer + Parser + Conforms (the evaluator and its literal conversions) compute, for every
     # formula over the atom tables and every entry of W3, the truth value Eval!EvalP gives - wherever both are defined
     return [dict(module="MC_ConformsMech", cfg="MC_ConformsMech_q" if tier == "quick" else "MC_ConformsMech_t",
-                 workers=8 if tier == "quick" else 12, actions=[], coverage=False)]
+                 workers=8 if tier == "quick" else 12, actions=[], coverage=False),
+            # ... and for every single comparison of MC_C02 over the columns the mechanism models cover, on every entry of W2x
+            dict(module="MC_ConformsMech2", cfg="MC_ConformsMech2", workers=8, actions=[], coverage=False)]
 
 
 def generators(tier, seed):
